@@ -76,7 +76,9 @@ def robust_job(job):
         s.close()
 
 
-KEY_ALPHA = [b"\x1b", b"[", b"O", b"<", b"0", b"1", b";", b"M", b"m", b"~", b"A", b"a", b"\x7f", b"\x00", b"\xff", b"\xe2"]
+KEY_ALPHA = [b"\x1b", b"[", b"O", b"<", b"0", b"1", b";", b"M", b"m", b"~", b"A", b"a", b"\x7f", b"\x00", b"\xff", b"\xe2",
+             b"2", b"3", b"5"]  # the last three only in the csi-tree family
+KEY_N = 16
 
 
 def keys_job(job):
@@ -401,12 +403,28 @@ def run(c, replay):
                         "alive and answering after every event, no panic text, exit 130 on abort, DEC modes switched off again")
     # ---- keys
     depth = c.pick(3, 4)
-    seqs = [q for d in range(1, depth + 1) for q in itertools.product(range(len(KEY_ALPHA)), repeat=d)]
+    seqs = [q for d in range(1, depth + 1) for q in itertools.product(range(KEY_N), repeat=d)]
+    # the decision tree of the CSI decoder is up to 7 bytes deep and tests lengths exactly: every read burst  PREFIX w  where w ranges over
+    # all strings over the symbols the tree branches on (first-parameter digits 1 2 3 5, 0, ';', '~', a final letter); a burst ends after each one
+    A = KEY_ALPHA.index
+    csi = [A(b"1"), A(b"2"), A(b"3"), A(b"5"), A(b"0"), A(b";"), A(b"~"), A(b"A")]
+    fam = [((A(b"\x1b"), A(b"[")), c.pick(4, 5)), ((A(b"\x1b"), A(b"\x1b"), A(b"[")), c.pick(3, 4)), ((A(b"\x1b"), A(b"O")), c.pick(2, 3))]
+    ncsi = 0
+    for pre, dmax in fam:
+        for d in range(1, dmax + 1):
+            for w in itertools.product(csi, repeat=d):
+                q = pre + w
+                if all(i < KEY_N for i in q) and len(q) <= depth:
+                    continue  # already in the flat enumeration
+                seqs.append(q)
+                ncsi += 1
     batch = 48
     jobs = [seqs[i:i + batch] for i in range(0, len(seqs), batch)]
-    c.bounds["keys"] = dict(alphabet=[repr(b) for b in KEY_ALPHA], max_len=depth, sequences=len(seqs))
+    c.bounds["keys"] = dict(alphabet=[repr(b) for b in KEY_ALPHA[:KEY_N]], max_len=depth, sequences=len(seqs),
+                            csi_tree=dict(prefixes=["ESC [", "ESC ESC [", "ESC O"], symbols="1 2 3 5 0 ; ~ A", max_suffix=[f[1] for f in fam], sequences=ncsi))
     L = sweep.run_jobs(c, "keys", keys_job, jobs, deadline_s=c.pick(150, 1500),
-                       rule="every byte string up to the length over 16 input-decoder symbols written to the pty, liveness probe after each; evaluations = byte strings")
+                       rule="every byte string up to the length over 16 input-decoder symbols, and every burst  ESC [ w / ESC ESC [ w / ESC O w  over the 8 symbols the CSI decision tree branches on, "
+                            "written to the pty as one read burst, liveness probe after each; evaluations = byte strings")
     # ---- mouse
     pts = [(x_, y_) for x_ in (1, 3, 40, 78, 79, 80) for y_ in (1, 2, 3, 12, 22, 23, 24)]
     inters = []
